@@ -1236,3 +1236,18 @@ package tally
 //@   allocs
 //@   requires scopeWF(s) && s.registry != nil && regWF0(s.registry)
 //@   ensures @a_fresh_snapshot_object is(result, *snapshot) && fresh(dyn(result, *snapshot)) && dyn(result, *snapshot).counters != nil && fresh(dyn(result, *snapshot).counters) && dyn(result, *snapshot).gauges != nil && fresh(dyn(result, *snapshot).gauges) && dyn(result, *snapshot).timers != nil && fresh(dyn(result, *snapshot).timers) && dyn(result, *snapshot).histograms != nil && fresh(dyn(result, *snapshot).histograms)
+
+// ---------------------------------------------------------------------------
+// C17: the seconds view of a duration specification (what the Prometheus
+// reporter registers as histogram bounds) is the element-wise quotient by
+// time.Second - the same expression the reporter uses for a bucket's bound.
+
+//@ func (DurationBuckets).AsValues
+//@   property C17
+//@   allocs
+//@   ensures @seconds_elementwise len(result) == len(v) && (forall k int :: 0 <= k && k < len(v) ==> same(result[k], float64(v[k]) / float64(time.Second)))
+//@   ensures @spec_untouched forall k int :: 0 <= k && k < len(v) ==> v[k] == old(v[k])
+//@   ensures @quiet quiet()
+//@   loop 1 invariant @idx 0 <= rangeindex+1 && rangeindex+1 <= len(values) && len(values) == len(v)
+//@   loop 1 invariant @done_so_far forall k int :: 0 <= k && k <= rangeindex ==> same(values[k], float64(v[k]) / float64(time.Second))
+//@   loop 1 invariant @spec_untouched forall k int :: 0 <= k && k < len(v) ==> v[k] == old(v[k])
